@@ -1,9 +1,12 @@
 #!/bin/sh
-# usage: tools/round2.sh <Cxx>...   — confirm and try the round-2 mutants (m3, m4) of the given properties
-for p in "$@"; do for m in m3 m4; do
+# usage: MUTDIR=/tmp/mut3 MS="m5 m6" tools/round2.sh <Cxx>...
+# Confirms (tools/confirm_mutant.sh) and tries (tools/trymutant.sh, own property's check) the mutants a sub-agent left
+# in $MUTDIR/<Cxx>/out/<mK>; results go to stdout, the mutants to /verif/seeded/<Cxx>-<mK>/.
+MUTDIR=${MUTDIR:-/tmp/mut2}; MS=${MS:-"m3 m4"}
+for p in "$@"; do for m in $MS; do
   id=$p-$m
-  [ -f /tmp/mut2/$p/out/$m/patch.diff ] || { echo "$id: no patch"; continue; }
-  [ -f /verif/seeded/$id/confirm.log ] || /verif/tools/confirm_mutant.sh /tmp/mut2/$p $m $id > /dev/null
+  [ -f $MUTDIR/$p/out/$m/patch.diff ] || { echo "$id: no patch"; continue; }
+  [ -f /verif/seeded/$id/confirm.log ] || /verif/tools/confirm_mutant.sh $MUTDIR/$p $m $id > /dev/null
   echo "$id confirm: $(tail -1 /verif/seeded/$id/confirm.log)"
   echo "$id $(/verif/tools/trymutant.sh /verif/seeded/$id/patch.diff $p | tr '\n' ' ' | cut -c1-400)"
 done; done
